@@ -23,6 +23,9 @@ fn family<F: Fam>(f: &mut Full, states: u64, big: bool) {
         f.collect_overflow::<F, 0>(h);
         f.collect_overflow::<F, 1>(h);
         f.collect_overflow::<F, 3>(h);
+        f.collect_fits::<F, 1>(h);
+        f.collect_fits::<F, 2>(h);
+        f.collect_fits::<F, 4>(h);
         if big {
             f.map_state::<F, 8>(h);
             f.map_state::<F, 16>(h);
